@@ -15,6 +15,12 @@ template<> struct Elem<Tracked> {
     static int peek(const Tracked& t) { return (int)t.peek(); }
     static constexpr const char* name = "Tracked";
 };
+template<> struct Elem<vrt::TrackedIL> {      // an element type that also has an initializer_list constructor (list-initialisation inside the list would pick it)
+    static vrt::TrackedIL make(int id) { return vrt::TrackedIL((uint64_t)id); }
+    static int id(const vrt::TrackedIL& t) { return (int)t.read(); }
+    static int peek(const vrt::TrackedIL& t) { return (int)t.peek(); }
+    static constexpr const char* name = "TrackedIL";
+};
 template<> struct Elem<std::string> {
     static std::string make(int id) { return "element-with-a-long-heap-allocated-name-" + std::to_string(id); }
     static int id(const std::string& s) { return std::atoi(s.c_str() + s.rfind('-') + 1); }
@@ -362,6 +368,7 @@ template<Prop P>
 vh::Outcome run_tracked(const vh::Case& c) {
     // cfg[2] selects the list's mutex type (a template parameter of rcu_list)
     if (c.cfg.size() > 2 && c.cfg[2] % 2 == 1) { vh::Outcome o = run_rcu<Tracked, vrt::QAlloc<Tracked>, vstd::timed_mutex>(c, P); o.labels.push_back("M=timed_mutex"); return o; }
+    if (P == P_C12 && !c.cfg.empty() && c.cfg[0] % 4 == 3) return run_rcu<vrt::TrackedIL>(c, P);
     return run_rcu<Tracked>(c, P);
 }
 // ---- C12r: rcu_list with a recursive mutex (documented as a useful mutex type) and an element whose constructor appends to the same
